@@ -565,15 +565,21 @@ def rule_FX5(ctx, rep):
         assigns = [s for s in iter_nodes(fn.node) if isinstance(s, ast.Assign) and norm(s.targets[0]) == 'integral']
         if len(assigns) < 2:
             raise AnalysisError(f'FX5: inference of integral not found in {key}')
+        from . import cond
         for s in assigns:
-            guards = [(norm(i.test), br) for i, br in enclosing_ifs(s, pm, stop=fn.node)]
-            under_none = ('integral is None', 'body') in guards
+            cx = cond.context(fn, s, pm)
+            holds = cond.implied(cx)           # atomic conditions that hold whenever this assignment runs (any nesting / polarity)
+            under_none = any(a in ('None is integral', 'integral is None') for a in holds)
             v = norm(s.value)
             if not under_none:
                 rep.bad('FX5', fn, s, 'an explicitly given integral argument is overwritten')
                 continue
-            is_int_branch = any(('isinstance(value, int)' in t or 'np.integer' in t) and br == 'body' for t, br in guards)
-            is_float_branch = any(('isinstance(value, float)' in t or 'np.floating' in t) and br == 'body' for t, br in guards)
+            def branch(pred):
+                """the assignment runs only when one of the atoms selected by pred holds (a disjunction of them is implied)"""
+                sel = [a for a in cond.atoms_of(cx) if pred(a)]
+                return bool(sel) and not cond.satisfiable(cond.conj([cx] + [cond.neg(cond.atom(a)) for a in sel]))
+            is_int_branch = branch(lambda t: 'isinstance(value, int)' in t or 'np.integer' in t or 'dtype, object)' in t)
+            is_float_branch = branch(lambda t: 'isinstance(value, float)' in t or 'np.floating' in t)
             if is_int_branch:
                 if v == 'True':
                     rep.ok('FX5', fn, s, 'ints are integral')
